@@ -1202,7 +1202,7 @@ class Bits:
         """
         return self._readlist(fmt, 0, **kwargs)[0]
 
-    def _readlist(self, fmt: Union[str, List[Union[str, int, Dtype]]], pos: int, **kwargs) \
+    def _readlist(self, fmt: Union[str, List[Union[str, int, Dtype]]], pos: int, /, **kwargs) \
             -> Tuple[List[Union[int, float, str, Bits, bool, bytes, None]], int]:
         if isinstance(fmt, str):
             fmt = [fmt]
